@@ -104,7 +104,7 @@ fn fail(o: &mut Outcome, sig: impl Into<String>, detail: impl Into<String>) {
 impl C04 {
     fn run_sequence(&self, src: &mut Src, o: &mut Outcome, describe: bool, max_len: usize) {
         let case = gen_sequence(src, max_len);
-        let opts = CodeOpts { lz77_min_length: case.min_length, use_prefix: None, single_cluster: false };
+        let opts = CodeOpts { lz77_min_length: case.min_length, use_prefix: None, single_cluster: false, distinct_clusters: false };
         let code = EntropyCode::generate(src, case.num_dist, &[&case.ops], &opts);
         let mut w = BitWriter::new();
         // leading bits so that the stream does not start byte aligned
